@@ -6,7 +6,7 @@ for l in open(sys.argv[1]):
     if not m:
         continue
     pid, n, clean, ka, keep, same, kt, ba, brk, bt = m.groups()
-    src = '/tmp/w3/%s/out/pair%s' % (pid, n)
+    src = '%s/%s/out/pair%s' % (os.environ.get('ROUND_DIR', '/tmp/w4'), pid, n)
     ok_keep = clean == '0' and ka == 'ok' and keep == '0' and same == 'yes' and '31 passed' in kt
     ok_break = clean == '0' and ba == 'ok' and brk == '1' and '31 passed' in bt
     readme = open(src + '/README.md').read() if os.path.exists(src + '/README.md') else ''
@@ -17,8 +17,8 @@ for l in open(sys.argv[1]):
         os.makedirs(dst, exist_ok=True)
         shutil.copy(src + '/break/patch.diff', dst + '/patch.diff'); shutil.copy(src + '/demo.py', dst + '/demo.py')
         open(dst + '/README.md', 'w').write(readme)
-        json.dump({'id': '%s-%d' % (pid, k), 'property': pid, 'pair': '%s-p%s' % (pid, n),
-                   'origin': 'round 3: independent sub-agent given only the property text, a scratch worktree and the list of changes already taken; asked for near-miss pairs (a breaking change and a behaviour-preserving change at the same site)',
+        json.dump({'id': '%s-%d' % (pid, k), 'property': pid, 'pair_dir': '%s-pair%s' % (pid, n),
+                   'origin': os.environ.get('ROUND_LABEL', 'round 4') + ': independent sub-agent given only the property text, a scratch worktree and the list of changes already taken; asked for near-miss pairs (a breaking change and a behaviour-preserving change at the same site)',
                    'summary': '', 'needs_to_manifest': 'see README.md',
                    'confirmed': {'how': 'tools/verify_pair.sh in a scratch git worktree under /tmp (removed afterwards)', 'demo_exit_clean': 0, 'demo_exit_patched': 1, 'test_suite_with_patch': bt}},
                   open(dst + '/meta.json', 'w'), indent=1)
@@ -26,11 +26,12 @@ for l in open(sys.argv[1]):
     else:
         print('BREAK NOT CONFIRMED', l.strip()[:300])
     if ok_keep:
-        dst = '/verif/twins/%s-p%s' % (pid, n)
+        existing_t = [int(os.path.basename(d).split('-p')[1]) for d in glob.glob('/verif/twins/%s-p*' % pid) if os.path.basename(d).split('-p')[1].isdigit()]
+        dst = '/verif/twins/%s-p%d' % (pid, max(existing_t + [0]) + 1)
         os.makedirs(dst, exist_ok=True)
         shutil.copy(src + '/keep/patch.diff', dst + '/patch.diff'); shutil.copy(src + '/demo.py', dst + '/demo.py')
         open(dst + '/README.md', 'w').write(readme)
-        json.dump({'id': '%s-p%s' % (pid, n), 'property': pid, 'origin': 'round 3: the behaviour-preserving half of a near-miss pair (same site and kind of edit as a breaking change); demo output byte-identical, suite unchanged'},
+        json.dump({'id': os.path.basename(dst), 'property': pid, 'origin': os.environ.get('ROUND_LABEL', 'round 4') + ': the behaviour-preserving half of a near-miss pair (same site and kind of edit as a breaking change); demo output byte-identical, suite unchanged'},
                   open(dst + '/meta.json', 'w'), indent=1)
         print('imported twin', dst)
     else:
